@@ -403,6 +403,8 @@ class Client:
                         sock.close()
                         sock = None
                 else:
+                    # this address works: forget failures of earlier ones
+                    error = None
                     break
 
             if error is not None:
